@@ -12,3 +12,5 @@ import Rsdns.Model.RData
 import Rsdns.Model.Reader
 import Rsdns.Model.RecordSet
 import Rsdns.Model.NameText
+import Rsdns.Lemmas.Safety
+import Rsdns.Lemmas.Hoare
